@@ -13,9 +13,11 @@ def main():
             "decid": __import__("decimal").Decimal(10030000), "symid": sympy.Integer(10030000)}
     BADA = {"nan": float("nan"), "neg": -1.0, "str": "1", "none": None, "complex": 1 + 0j, "npnan": np.float64("nan"),
             "negint": -3, "negrat": sympy.Rational(-1, 3), "symnan": sympy.nan, "symbol": sympy.Symbol("x"), "list": [1.0],
-            "negnp": np.float32(-2.0)}
+            "negnp": np.float32(-2.0), "neginf": float("-inf"), "npneginf": np.float64("-inf"), "symneginf": -sympy.oo,
+            "zoo": sympy.zoo, "imag": sympy.I, "cplx": 1 + sympy.I}     # (+inf is not in the property's list of invalid amounts: it is >= 0)
     GOODA = {"int": 2, "float": 2.0, "np64": np.float64(2.0), "np32": np.float32(2.0), "npint": np.int64(2),
-             "rat": sympy.Rational(2, 1), "symint": sympy.Integer(2), "frac": __import__("fractions").Fraction(2, 1)}
+             "rat": sympy.Rational(2, 1), "symint": sympy.Integer(2), "frac": __import__("fractions").Fraction(2, 1),
+             "symfloat": sympy.Float(2.0)}
     out = []
     d = rd.DEFAULTDATA
     # ordinary successful use first: the refusals below must not depend on what was asked before
